@@ -21,11 +21,13 @@
 //!   vf  kind ops hlen rlen variant::io::Writer: ops = string over H (write_header) R (write_record) F (finish);
 //!                          obs = delivered bytes / data blocks / EOF blocks / ends-with-EOF after the ops and
 //!                          after dropping the writer
-//!   fw  mode data script   the detection window over ScriptedReader(data, script): mode cur =
-//!                          BufReader::new(r).fill_buf() (current tree), fix = the read-ahead of patch 06
-//!                          (verbatim copy of its helper); obs = the window (hex) | Err:Interrupted
+//!   fw  mode data script   the detection window over ScriptedReader(data, script): mode fix = the read-ahead
+//!                          of HEAD (5c79ec5; read_prefix copied verbatim, it is pub(crate)), mode cur = history:
+//!                          BufReader::new(r).fill_buf(), the window of the tree before 5c79ec5 (model
+//!                          first_window_cur, theorems c20_v0_*); obs = the window (hex) | Err:Interrupted
 //!   dw|dwf mode cfg data script avail stop     the real alignment reader builder over the scripted source;
-//!                          mode = which behaviour the linked noodles-util shows (probed at generation)
+//!                          mode is always `fix` since 5c79ec5 is in /repo; a linked noodles-util that looks
+//!                          at the first read only is reported as the regression `detect-short-first-read`
 //!   dv|dvf...  -> `dwv`/`dwvf`  the variant twin
 
 use std::{
@@ -77,7 +79,7 @@ impl Drop for Scratch {
     }
 }
 
-fn repo() -> noodles_fasta::Repository {
+pub fn repo() -> noodles_fasta::Repository {
     let recs: Vec<noodles_fasta::Record> = ["sq0", "sq1", "sq2"]
         .iter()
         .map(|n| {
@@ -399,7 +401,7 @@ fn labels(exts: &[&str], states: &str) -> String {
     exts.iter().zip(states.chars()).map(|(e, s)| state_label(e, s)).collect()
 }
 
-fn data_bytes(code: &str, variantside: bool) -> io::Result<Vec<u8>> {
+pub fn data_bytes(code: &str, variantside: bool) -> io::Result<Vec<u8>> {
     if variantside {
         let cfg = match code {
             "vcf" => "nv",
@@ -686,7 +688,7 @@ pub fn parse_script(s: &str) -> Vec<Deliver> {
 
 const DETECTION_WINDOW_SIZE: usize = 8 * 1024;
 
-/// verbatim from /tmp/C20/fixes/06-detect-short-first-read.diff
+/// verbatim from /repo noodles-util/src/alignment/io/reader/builder.rs (pub(crate) there)
 fn read_prefix<R>(reader: &mut R) -> io::Result<Vec<u8>>
 where
     R: Read,
@@ -749,8 +751,12 @@ fn run_dw(c: &Case) -> Obs {
     let variantside = c.kind.starts_with("dwv");
     let fonly = c.kind.ends_with('f');
     let (mode, cfg, data, script) = (c.args[0].clone(), c.args[1].clone(), c.b(2), c.args[3].clone());
-    if probe_mode() != mode {
-        return Obs::fail("-", "harness-window-mode-drift", format!("case generated for `{mode}`, the linked noodles-util behaves as `{}`", probe_mode()));
+    if mode != "fix" {
+        return Obs::fail("-", "harness-window-mode", "dw cases are about the tree with the read-ahead (mode fix)");
+    }
+    if probe_mode() != "fix" {
+        // regression of the repaired finding: the builder looks at the first read only again
+        return Obs::fail("-", "detect-short-first-read", "BAM delivered one byte at a time is not detected as BAM");
     }
     let sc = parse_script(&script);
     let mut obs = crate::detect::observe_src(variantside, &cfg, &data, &sc);
@@ -1001,7 +1007,7 @@ pub fn generate(rng: &mut Rng, tier: &str, w: &mut CaseWriter) {
         let sc = if sc.is_empty() { "_".to_string() } else { sc.join(",") };
         w.push("fw", vec![(*rng.pick(&["cur", "fix"])).into(), hex(&data), sc]);
     }
-    let mode = probe_mode();
+    let mode = "fix";
     let dw_scripts = ["", "d1", "d2", "d3", "d4", "d5", "d17", "d30", "i", "d1,d1,d1,d1,d1,d1", "i,d3", "d9000"];
     for (i, s) in streams.iter().enumerate() {
         if s.len() > 4096 && !thorough {
